@@ -100,25 +100,24 @@ def _parse_string(s):
     test = float(s) * factor
 
     s_float, exp, s_exp = s.partition("e")
-    s_count, sep, s_frac = s_float.rpartition(".")
+    s_count, sep, s_frac = s_float.partition(".")
     if exp:
+        # Apply the exponent by moving digits across the decimal point
+        # (padding with zeros where needed), so that no precision is lost.
         exponent = int(s_exp)
         if exponent < 0:
-            n = min(len(s_count), -exponent)
-            s_frac = s_count[-n:] + s_frac
-            s_count = s_count[:-n]
-            exponent += n
+            s_count = "0" * (-exponent - len(s_count)) + s_count
+            s_frac = s_count[exponent:] + s_frac
+            s_count = s_count[:exponent]
         elif exponent > 0:
-            n = min(len(s_frac), exponent)
-            s_count = s_count + s_frac[:n]
-            s_frac = s_frac[n:]
-            exponent -= n
-        factor *= 10 ** exponent
+            s_frac = s_frac + "0" * (exponent - len(s_frac))
+            s_count = s_count + s_frac[:exponent]
+            s_frac = s_frac[exponent:]
 
     frac = float("0." + s_frac) * factor
     count = float("0" + s_count) * factor
 
-    assert count + frac == test
+    assert np.isclose(count + frac, test, rtol=4e-16, atol=0)
     return count, frac
 
 
